@@ -45,9 +45,9 @@ LF_SELFTEST_SRC = "template S() { signal input a; signal output b; b <-- a; }"
 
 # class name (c08gen) -> id in known_findings.jsonl
 KF_IDS = {"decl-tuple-dup-name": "C08-decl-tuple-duplicate-name",
-          # fourth audit: the pass compares access vectors with `==`: a constraint statement that uses an element / a
-          # containing array of the assigned (sub)array is not listed.  Accepted (as exactly that output) only while the
-          # id is listed as `known` in known_findings.jsonl; otherwise a VIOLATION with the source as failing input.
+          # fourth audit: /repo 517e7a0 compared access vectors with `==` (a constraint statement that uses an element / a
+          # containing array of the assigned (sub)array was not listed); repaired by 4f017e8 + 96648cc.  The class is kept
+          # INERT: it would be accepted (as exactly the equality output) only if the id were listed as `known`, which it is not.
           c08gen.PARTIAL_CLASS: "C08-partial-access-mention"}
 
 
@@ -1194,7 +1194,13 @@ def run(ctx, proofs):
         "findings_judged_for_new_shapes": {
             "CS0005 with a secondary that mentions the signal only inside an index": stats["CS0005_with_secondary_through_index_only"],
             "CS0005 with secondaries for a tagged signal": stats["CS0005_tagged_with_secondaries"],
-            "secondaries demanded through an index only": stats["secondaries_demanded_through_an_index_only"]},
+            "secondaries demanded through an index only": stats["secondaries_demanded_through_an_index_only"],
+            "CS0005 with a secondary that mentions the signal only through a longer / shorter access":
+                stats["CS0005_with_secondary_through_longer_or_shorter_access_only"],
+            "CS0005 with secondaries for a whole-array / partially indexed target": stats["CS0005_with_secondaries_for_array_valued_target"],
+            "assignments mentioned through a longer / shorter access only": stats["assignments_mentioned_through_a_longer_or_shorter_access_only"],
+            "secondaries demanded through a longer access only": stats["secondaries_demanded_through_a_longer_access_only"],
+            "secondaries demanded through a shorter access only": stats["secondaries_demanded_through_a_shorter_access_only"]},
         "left_out_of_a_comparison": dict(dropped),
         "open_statements": [
             "constraint_keys_distinct (no two constraint statements of one SSA cfg compare equal) is a hypothesis of "
@@ -1208,9 +1214,6 @@ def run(ctx, proofs):
             "generator's ground truth and C18's theorems, no C08 theorem speaks about the tree before desugaring",
             "claimed_quadratic (the degree claim that selects CS0013 vs CS0005) is the knowledge the degree pass attached: "
             "its meaning is C07 / C20",
-            "`mentions` for whole-array / partially indexed references: Spec.SigAssignSpec.same_use is equality of accesses "
-            "(the implementation's `==`); the prefix-compatible reading the oracle applies to the written text is not a Coq "
-            "statement - on the class `partial-access-mention` the theorems speak about the narrower relation",
         ],
         "source_statements_matched_with_cfg_statements": stats["source_statements_matched"],
         "keys_not_distinct_in_known_class": stats["keys_not_distinct_in_known_class"],
@@ -1260,10 +1263,12 @@ def run(ctx, proofs):
         "and `a0[0]` are different texts); on fully indexed references this is the old rule (equal name, equal access). "
         "The generator records occurrences of the text it writes, it never asks the implementation what it read (DESIGN "
         "5.3); index expressions hold constants, loop variables and locals that are never reassigned, signals and `SIGNAL "
-        "+ 1`, so textual and IR equality coincide.  The Coq specification's `same_use` (Spec.SigAssignSpec) is EQUALITY "
-        "of name and access - what signal_assignments.rs implements; the theorems therefore establish the property text "
-        "only for assignments no constraint statement mentions through a longer or shorter access (the class "
-        "`partial-access-mention`, on which the unchanged tool of 517e7a0 lists too few constraint statements)",
+        "+ 1`, so textual and IR equality coincide.  Since /repo 4f017e8 + 96648cc the pass implements this reading, and the Coq "
+        "specification states it (Spec.SigAssignSpec.same_use = prefix-compatible accesses; update_mentions for a "
+        "constraint assignment `v[t] <== e`: target, e and the index expressions of t, not the whole-variable read of the "
+        "Update node); the old reading 'same name and equal access' (DESIGN 5.3) is withdrawn.  The class "
+        "`partial-access-mention` (c08gen) and the id C08-partial-access-mention are kept INERT (nothing is listed as "
+        "known): a definition of that class is judged by the rule like any other",
         "CLI stage (fourth audit): path spellings (absolute / relative to cwd / `./relative`), option spellings (`-v`, "
         "`--verbose`, none; `-l` / `--level`; `-s` / `--sarif-file`; `-c` / `--curve`), option position and layout "
         "(single file, a second named file, the file included by a named main file and named itself) are drawn per run "
